@@ -205,7 +205,7 @@ class P(core.Prop):
             rep = rng.randrange(10, 256)
         atyp = rng.choice([1, 1, 1, 3, 3, 4, 4, rng.choice([0, 2, 5, 255])])
         if atyp == 3:
-            n = rng.choice([1, 2, 3, 11, 40, 255])
+            n = rng.choice([0, 1, 2, 3, 11, 40, 255])
             addr = bytes([n]) + bytes(rng.choice(b'abcdefghijklmnop.-0123') for _ in range(n))
         elif atyp == 4:
             addr = bytes(rng.randrange(256) for _ in range(16))
